@@ -54,7 +54,7 @@ BUMP = "v = v + 1; l.append(v); o.n = o.n + 1"
 
 
 def make_spec(task):
-    tree, scheme, ivar, k = task
+    tree, scheme, ivar, k = task[:4]
     spec = add_scheme_S(flatten(tree, scheme, ivar))
     spec['preamble'] = 'v = 0; l = []; o = BOX()'
     for s in spec['states']:
@@ -129,6 +129,15 @@ def run_op(R, hist, op, fail_at):
     else:
         it = R.fresh(hist)
         v0, entry_v = parse_v(probes.LOG)
+        if getattr(R, 'with_bystander', False):
+            # a second interpreter of the same Statechart object, with contracts, driven through a shorter history
+            # while the first one is alive: what __old__ shows is a matter of each interpreter alone
+            if R.shadow is None:
+                R.shadow = engine.Runner(R.spec, prebuilt=(R.sc, R.objs), extra_context=R.extra_context)
+            keep = R.kept
+            R._by = R.shadow.fresh(hist[:-1])
+            R.kept = keep
+            probes.VAL.clear()
     p = len(probes.LOG)
     probes.CVAL['count'] = 0
     probes.CVAL['fail_at'] = fail_at
@@ -152,6 +161,7 @@ def run_op(R, hist, op, fail_at):
 def work(task):
     spec = make_spec(task)
     R0 = engine.Runner(spec, extra_context=EXTRA)
+    R0.with_bystander = len(task) > 4 and task[4] == 'bystander'
     tr_by_tid = {t['tid']: t for t in spec['transitions']}
     found = []
     extra = collections.Counter()
@@ -214,7 +224,7 @@ def work(task):
     res['violations'] = [v for v in res['violations'] if v['category'] == 'crash']
     res['found'] = found
     res['nviol'] = extra['nviol'] + len(res['violations'])
-    res['desc'] = describe(spec)
+    res['desc'] = describe(spec) + (' [bystander]' if R0.with_bystander else '')
     res['task'] = task
     res['extra'] = dict(extra)
     return res
@@ -227,6 +237,8 @@ def run(tier, seed):
         for tree in skeletons(nmin, nmax):
             for ivar in ((0, 1) if has_variant(tree) else (0,)):
                 tasks.append((tree, 'asc', ivar, k))
+    for tree in skeletons(2, 3 if tier == 'quick' else 4):
+        tasks.append((tree, 'asc', 0, 1, 'bystander'))
     tasks.sort(key=lambda t: -len(repr(t[0])))
     results = harness.pmap(work, tasks)
     agg = harness.Agg()
@@ -271,6 +283,7 @@ def replay(data):
     task = schemes._tupled(data['task'])
     spec = make_spec(task)
     R = engine.Runner(spec, extra_context=EXTRA)
+    R.with_bystander = len(task) > 4 and task[4] == 'bystander'
     hist = schemes._tupled(data['hist']) if data['hist'] else ()
     op = schemes._tupled(data['op'])
     print('chart :', describe(spec))
